@@ -184,12 +184,26 @@ func propC17(t *rapid.T, e *Env) {
 		t.Fatalf("%v", err)
 	}
 	on := ToNode(obj)
-	// sometimes delete a custom attribute: the diagnostic is still due and the hook sees a nil interface
+	// sometimes delete custom attributes (at the root): the diagnostic is still due and the hook is
+	// still called, with a nil interface as attribute value
+	var expMissing []expDiag
+	for _, ab := range rc.B.Attrs {
+		if ab.A.Custom != nil && on.Attrs[ab.A.Name] != nil && rapid.IntRange(0, 3).Draw(t, "delcustom") == 0 {
+			delete(on.Attrs, ab.A.Name)
+			expMissing = append(expMissing, expDiag{full: ab.A.DiagFull, field: ab.A.DiagSuffix, owner: ab.A.Owner, what: "missing", max: 1})
+		}
+	}
 	target := GenStruct(t, rc.B.Typ, VOpts{})
 	support.ResetCalls()
 	d, p := rc.CopyFrom(on.Object(), target)
-	if p != "" || len(errorDiags(d)) > 0 {
-		e.Fail(t, "C17 Copy%sFromTerraform failed on a conforming object: %s %v", rc.M.Name, p, errorDiags(d))
+	if p != "" {
+		e.Fail(t, "C17 Copy%sFromTerraform panicked: %s; object %s", rc.M.Name, p, on.String())
+	}
+	if msg := matchDiags(d, mergeDiags(expMissing), false); msg != "" {
+		e.Fail(t, "C17 Copy%sFromTerraform with %d custom attributes deleted: %s; object %s", rc.M.Name, len(expMissing), msg, on.String())
+	}
+	if len(expMissing) > 0 {
+		e.Res.Class("custom_attribute_missing")
 	}
 	var sites []customSite
 	customSites(rc.M.Name, rc.B, target.Elem(), on, true, false, &sites)
@@ -231,7 +245,11 @@ func propC17(t *rapid.T, e *Env) {
 		}
 		// the generated code must not overwrite what the hook stored
 		want := reflect.New(s.field.Type())
-		support.Store(want.Interface(), s.node.Attr())
+		var stored attr.Value
+		if s.node != nil {
+			stored = s.node.Attr()
+		}
+		support.Store(want.Interface(), stored)
 		if jsonOf(want.Elem().Interface()) != jsonOf(s.field.Interface()) {
 			e.Fail(t, "C17 field %s holds %s after CopyFrom, the hook stored %s", s.path, jsonOf(s.field.Interface()), jsonOf(want.Elem().Interface()))
 		}
